@@ -594,6 +594,11 @@ func (fr *Frame) runDeferred(st *State, d deferred, pos token.Pos) {
 		fr.callFunction(st, d.fnVal.Fn, d.args, d.fnVal.Binds, cc.Signature(), pos)
 		return
 	}
+	if n, ok := cc.Value.Type().(*types.Named); ok && n.Obj().Pkg() != nil && n.Obj().Pkg().Path() == "context" &&
+		(n.Obj().Name() == "CancelFunc" || n.Obj().Name() == "CancelCauseFunc") {
+		fr.top.note("calling a context cancel function is assumed to have no effect on the program's heap")
+		return
+	}
 	fr.top.note("deferred call of unknown function value: heap havocked")
 	fr.havocAll(st)
 }
